@@ -23,7 +23,9 @@ Has(s, c) == FirstIdx(s, {c}) <= Len(s)
 StartsWith(s, p) == Len(s) >= Len(p) /\ SubSeq(s, 1, Len(p)) = p
 EndsWith(s, p) == Len(s) >= Len(p) /\ SubSeq(s, Len(s) - Len(p) + 1, Len(s)) = p
 Drop(s, n) == SubSeq(s, n + 1, Len(s))
-Take(s, n) == SubSeq(s, 1, n)
+Take(s, n) == SubSeq(s, 1, IF n > Len(s) THEN Len(s) ELSE n)
+(* SubSeq clamped to the sequence *)
+Sub(s, a, b) == SubSeq(s, a, IF b > Len(s) THEN Len(s) ELSE b)
 LastOf(s) == s[Len(s)]
 FrontOf(s) == SubSeq(s, 1, Len(s) - 1)
 
